@@ -162,12 +162,29 @@ def r18_1(ck):
         ck.require(ok, 'R18.1', gd, a,
                    'a queried value is kept unless it is absent (None)',
                    'a queried value is filtered by %s' % sorted(extra), a)
-    # every saved time gets a row, every queried path is looked up
-    ok = any(isinstance(n2, ast.For) and 'self.saved_data.items()' in
-             A.unparse(n2.iter) for n2 in A.walk_no_nested(gd.node)) and any(
-        isinstance(n2, ast.For) and A.is_name(n2.iter,
-                                              A.params_of(gd.node)[1])
-        for n2 in A.walk_no_nested(gd.node))
+    # every saved time gets a row, every queried path is looked up (loops
+    # or comprehensions, here or in a private helper called from here)
+    q = A.params_of(gd.node)[1]
+    iters = [(A.unparse(n2.iter), None) for n2 in ast.walk(gd.node)
+             if isinstance(n2, (ast.For, ast.comprehension))]
+    for c in A.calls_in(gd.node):
+        nm = A.call_name(c)
+        if not nm or not nm.startswith('_') or nm.startswith('__'):
+            continue
+        h = ck.repo.method(gd.cls, nm) if gd.cls else None
+        if h is None or not any(A.is_name(a, q) for a in c.args):
+            continue
+        hp = A.params_of(h.node)
+        static = not hp or hp[0] != 'self'
+        for i, a in enumerate(c.args):
+            if A.is_name(a, q):
+                j = i if static else i + 1
+                if j < len(hp):
+                    iters += [(A.unparse(n2.iter), hp[j])
+                              for n2 in ast.walk(h.node) if isinstance(
+                                  n2, (ast.For, ast.comprehension))]
+    ok = any('self.saved_data.items()' in it for it, _p in iters) and any(
+        it == (p_ or q) for it, p_ in iters)
     ck.require(ok, 'R18.1', gd, gd.node.name,
                'the query visits every saved time and every queried path',
                'get_data(query) no longer iterates all times x all paths')
@@ -179,6 +196,15 @@ def r18_1(ck):
                   and isinstance(r.value, ast.Name)}]
     ok = bool(st) and all(cfg.guards(cfg.node(s)) <= {
         ('truthy', A.params_of(gd.node)[1])} for s in st)
+    # ... or the rows are one unfiltered dict comprehension over the times
+    for r in A.walk_no_nested(gd.node):
+        if isinstance(r, ast.Return) and isinstance(
+                r.value, ast.DictComp) and not st:
+            g = r.value.generators
+            ok = len(g) == 1 and not g[0].ifs and \
+                'self.saved_data.items()' in A.unparse(g[0].iter) and \
+                A.unparse(r.value.key) == A.unparse(g[0].target.elts[0]) \
+                if isinstance(g[0].target, ast.Tuple) else False
     ck.require(ok, 'R18.1', gd, st[0] if st else gd.node.name,
                'a row is produced for every emitted time', None)
 
@@ -209,7 +235,14 @@ def r18_2(ck):
                    'rows, so values no longer line up with their times'
                    % A.unparse(v), s2)
     loops = [n for n in A.walk_no_nested(f.node) if isinstance(n, ast.For)]
-    ok = len(loops) == 1 and A.unparse(loops[0].iter) == data + '.values()'
+    if not loops and any(A.call_name(c) in ('reduce', 'map', 'accumulate')
+                         for c in A.calls_in(f.node)):
+        ck.undecided('R18.2', f, f.node.name,
+                     'the rows are folded by a higher-order function '
+                     '(reduce/map), not by a loop: no recogniser')
+        loops = None
+    ok = loops is None or (
+        len(loops) == 1 and A.unparse(loops[0].iter) == data + '.values()')
     ck.require(ok, 'R18.2', f, loops[0] if loops else f.node.name,
                'rows are visited as data.values() in one pass',
                'the rows are not visited as data.values() (filtered or '
